@@ -55,13 +55,35 @@ def main():
     with open(os.path.join(out, "overlay.json"), "w") as fh:
         json.dump({"Replace": rep}, fh, indent=1)
 
+def sendgate(s):
+    """Insert m.verifSendGate(<channel>) before every send into the sync loop's input channels: a plain send statement,
+    or a send that is a case of a select (then the gate goes before the select)."""
+    lines = s.split("\n")
+    out = []
+    for ln in lines:
+        m = re.match(r'^(\s*)(m\.(headerInCh|dataInCh) <- )', ln)
+        if m:
+            out.append('%sm.verifSendGate("%s")' % (m.group(1), m.group(3)))
+            out.append(ln)
+            continue
+        m = re.match(r'^(\s*)case m\.(headerInCh|dataInCh) <- ', ln)
+        if m:
+            # walk back to the enclosing select
+            for j in range(len(out) - 1, -1, -1):
+                ms = re.match(r'^(\s*)select \{\s*$', out[j])
+                if ms:
+                    out.insert(j, '%sm.verifSendGate("%s")' % (ms.group(1), m.group(2)))
+                    break
+        out.append(ln)
+    return "\n".join(out)
+
 def rewrite(s, what):
     if "sync" in what:
         s = re.sub(r'(?m)^(\s*)"sync"$', r'\1sync "%s/verifshim/vsync"' % MOD, s)
     if "atomic" in what:
         s = re.sub(r'(?m)^(\s*)"sync/atomic"$', r'\1atomic "%s/verifshim/vatomic"' % MOD, s)
     if "sendgate" in what:
-        s = re.sub(r'(?m)^(\s*)(m\.(headerInCh|dataInCh) <- )', r'\1m.verifSendGate("\3"); \2', s)
+        s = sendgate(s)
     if "os" in what:
         s = re.sub(r'(?m)^(\s*)"os"$', r'\1os "%s/verifshim/vos"' % MOD, s)
     return s
